@@ -42,7 +42,7 @@ func c04Input(r *core.Rand) inputs.Input {
 	n := c04Size(r)
 	in := inputs.Input{N: n, Seed: r.Uint64() % 1000}
 	switch v := r.Intn(100); {
-	case v < 38: // JSON scanner users
+	case v < 32: // JSON scanner users
 		fams := []string{"json", "json_trunc", "json_bad", "geojson", "geojson", "har", "gltf", "json_deep", "json_deep", "json_nest", "json_wide"}
 		in.Fam = fams[r.Intn(len(fams))]
 		in.V = r.Intn(8)
@@ -63,14 +63,14 @@ func c04Input(r *core.Rand) inputs.Input {
 				in.N = 100
 			}
 		}
-	case v < 62: // line oriented: pooled bufio.Reader
+	case v < 54: // line oriented: pooled bufio.Reader
 		fams := []string{"ndjson", "ndjson_bad", "csv", "csv_ragged", "csv_ragged", "csv_big", "tsv"}
 		in.Fam = fams[r.Intn(len(fams))]
 		rows := []int{2, 3, 8, 50, 300, 600, 2000}[r.Intn(7)]
 		in.N = rows
 		in.V = r.Range(2, 9)
 		in.P = r.Range(1, rows)
-	case v < 78:
+	case v < 68:
 		fams := []string{"html_meta", "html_meta", "xml_enc", "latin1", "bom16", "text", "text_nul", "svg", "shebang", "bom8", "bom8", "utf8", "utf8", "utf8"}
 		in.Fam = fams[r.Intn(len(fams))]
 		in.V = r.Intn(6)
@@ -87,7 +87,7 @@ func c04Input(r *core.Rand) inputs.Input {
 		if in.Fam == "html_meta" && r.Chance(1, 2) {
 			in.P = []int{0, 10, 3000, 3100}[r.Intn(4)]
 		}
-	case v < 94:
+	case v < 80:
 		fams := []string{"png", "gif", "pdf", "zip", "docx", "docx", "ole", "elf", "gzip", "random", "tar", "tar", "sample", "sample", "sample"}
 		in.Fam = fams[r.Intn(len(fams))]
 		in.P = []int{10, 100, 2900, 3100, 5000}[r.Intn(5)]
@@ -100,6 +100,13 @@ func c04Input(r *core.Rand) inputs.Input {
 		if in.Fam == "tar" {
 			in.V = r.Intn(4)
 		}
+	case v < 96:
+		// the repository's own sample of some format (every supported format has one),
+		// as is or followed by text / zero bytes
+		in.Fam, in.V, in.P = "corpus", r.Intn(1<<12), []int{0, 0, 1, 2}[r.Intn(4)]
+		if in.N > 5000 {
+			in.N = r.Range(1, 5000)
+		}
 	default:
 		fams := []string{"empty", "rtf", "srt", "vcard"}
 		in.Fam = fams[r.Intn(len(fams))]
@@ -110,7 +117,53 @@ func c04Input(r *core.Rand) inputs.Input {
 	return in
 }
 
+// sweepChunk is the number of corpus entries one sweep run covers.
+const sweepChunk = 8
+
+var sweepLimits = []uint32{3072, 0, 16, 5, 64}
+
+// sweepPlan is run g of the systematic part of the plan space: every entry of
+// the repository's own sample table (one or more inputs per supported format)
+// goes through Detect (private buffer with a verdict-flipping spare capacity, and
+// cut at the limit with two different continuations), DetectReader and
+// DetectFile, under each limit of sweepLimits. nil: g is beyond the sweep.
+func sweepPlan(seed uint64, g int) *Plan {
+	n := len(inputs.Corpus())
+	chunks := (n + sweepChunk - 1) / sweepChunk
+	if n == 0 || g >= chunks*len(sweepLimits) {
+		return nil
+	}
+	r := core.NewRand(core.Mix(seed, 0x5eec04, uint64(g)))
+	limit := sweepLimits[g/chunks]
+	p := &Plan{Prop: "C04", Limit0: limit, MaxSteps: 60000000, Pool: []string{"adversarial", "lifo", "steal"}[g%3],
+		Sched: core.SchedSpec{Kind: "random"}}
+	var ops []Op
+	for e := (g % chunks) * sweepChunk; e < (g%chunks+1)*sweepChunk && e < n; e++ {
+		in := inputs.Input{Fam: "corpus", V: e}
+		ops = append(ops, Op{Kind: "detect", In: &in})
+		if limit > 0 {
+			// cut inside (or extend beyond) the sample at the limit, with two continuations
+			t1, t2 := in, in
+			if len(in.Bytes()) < int(limit) {
+				t1.P, t1.N = 1, int(limit)+8
+				t2.P, t2.N = 1, int(limit)+8
+			}
+			t1.Cut, t1.Tail = int(limit), 1+r.Intn(len(inputs.Tails)-1)
+			t2.Cut, t2.Tail = int(limit), 1+r.Intn(len(inputs.Tails)-1)
+			ops = append(ops, Op{Kind: "detect", In: &t1}, Op{Kind: "detect", In: &t2, Reuse: true})
+		}
+		ops = append(ops, Op{Kind: "reader", In: &in, Del: randDelivery(r, len(in.Bytes()), 0)})
+		ops = append(ops, Op{Kind: "file", In: &in})
+		ops = append(ops, Op{Kind: "detect", In: &in, Reuse: true})
+	}
+	p.Tasks = [][]Op{ops}
+	return p
+}
+
 func (c *c04) Plan(seed uint64, tier string, worker, workers, idx int) *Plan {
+	if sp := sweepPlan(seed, worker+idx*workers); sp != nil && idx < 1000000 {
+		return sp
+	}
 	r := core.NewRand(core.Mix(seed, 0xc04, uint64(worker), uint64(idx)))
 	p := &Plan{Prop: "C04", Limit0: c04Limits[r.Intn(len(c04Limits))], MaxSteps: 60000000}
 	p.Pool = []string{"adversarial", "adversarial", "steal", "steal", "lifo", "fifo"}[r.Intn(6)]
